@@ -554,6 +554,11 @@ def add_exotics(rng: random.Random, form: dict, kinds, p=0.5) -> list[str]:
             row.setdefault("label", "Map it")
             survey.append(row)
             form["osm"] = [{"list_name": "tags9", "name": n, "label": lab} for n, lab in rng.sample([("building", "Building"), ("amenity", "Amenity"), ("name", "Name & <co>")], rng.randint(1, 3))]
+            if langs and rng.random() < 0.3:
+                for t in form["osm"]:        # translated tag labels (finding F50 of C07)
+                    lab = t.pop("label")
+                    for lang in langs:
+                        t[f"label{delim}{lang}"] = lab + " " + lang[:2]
         elif kind == "search":
             lst = _fresh(form, "sl")
             ch = form.setdefault("choices", [])
